@@ -1468,7 +1468,17 @@ class ArrayToBlocks(Linop):
         return BlocksToArray(self.ishape, self.blk_shape, self.blk_strides)
 
     def _normal_linop(self):
-        return Identity(self.ishape)
+        # Identity only when the blocks tile the array exactly.
+        D = len(self.blk_shape)
+        if all(
+            s == b and i % b == 0
+            for i, b, s in zip(
+                self.ishape[-D:], self.blk_shape, self.blk_strides
+            )
+        ):
+            return Identity(self.ishape)
+
+        return self.H * self
 
 
 class BlocksToArray(Linop):
@@ -1507,7 +1517,11 @@ class BlocksToArray(Linop):
         return ArrayToBlocks(self.oshape, self.blk_shape, self.blk_strides)
 
     def _normal_linop(self):
-        return Identity(self.ishape)
+        # Identity only when the blocks do not overlap.
+        if all(s >= b for b, s in zip(self.blk_shape, self.blk_strides)):
+            return Identity(self.ishape)
+
+        return self.H * self
 
 
 def Gradient(ishape, axes=None):
